@@ -76,6 +76,16 @@ var cmechs = []cmech{
 	{id: "ptrToLocal", setup: []cline{cl("var loc string"), cl("p := &loc")}, params: "p *string", args: "p",
 		write: func(x string) []cline { return []cline{cacc("*p = "+x, "p", true)} },
 		read:  func(y string) []cline { return []cline{cacc(y+" = *p", "p", false)} }},
+	// the shared object is received in a select statement whose FIRST case receives from a channel of a basic type
+	{id: "selectRecv", setup: []cline{cls("c := make(chan *O, 1)", "c := vsched.MakeChan[*O](1)"), cls("cb := make(chan bool, 1)", "cb := vsched.MakeChan[bool](1)")},
+		params: "c chan *O, cb chan bool", paramsSh: "c *vsched.Chan[*O], cb *vsched.Chan[bool]", args: "c, cb",
+		write: func(x string) []cline {
+			return []cline{cl("q := &O{}"), cacc("q.F = "+x, "&q.F", true), caccs("c <- q", "c.Send(q)", "c", true)}
+		},
+		read: func(y string) []cline {
+			return []cline{cls("select {", "switch selIdx, _, r := vsched.SelectRecv2(cb, c); selIdx {"), cls("case b := <-cb:", "case 0:"), cls("\t_ = b", "\t_ = selIdx"),
+				cls("case r := <-c:", "case 1:"), cacc("\t"+y+" = r.F", "&r.F", false), cl("}")}
+		}},
 	// the pointer to the shared object travels inside a struct passed BY VALUE to the goroutine
 	{id: "structByValue", decls: []cline{cl("type Box struct{ P *O }")}, setup: []cline{cl("b := Box{P: &O{}}")}, params: "b Box", args: "b",
 		write: func(x string) []cline { return []cline{cacc("b.P.F = "+x, "&b.P.F", true)} },
